@@ -910,12 +910,16 @@ def run(tier):
         "bound": dict(bound, reserved_names=len(allnames), names_legal_in_rust=len(value_names), type_role_names=len(type_names), rust_keywords_skipped=rust_illegal,
                       roles=U.ROLES, keyword_stats=kw_stats, callback_shapes_accepted=len(cb_ok), callback_shapes_rejected_by_gate=sorted(cb_rejected),
                       decl_headers_covered_by_prefix_argument=implied, skipped_jobs=len(skipped),
+                      include_order="every unit: all headers in one TU sorted and reversed (C11; C++17 and C++20); small shape modules (cyc, multi, ns, ren): every rotation "
+                                    "(quick: C11 and C++17; thorough: + C++20) and every ordered pair (quick: C11; thorough: + C++17, C++20)",
+                      cpp_standards="thorough: every header alone under c++17 and c++20. quick: alone under c++17, c++20 through the all-headers TUs, alone under c++20 where either fails",
                       skipped_detail=sorted({"%s:%s" % (s.get("kind"), s.get("lang")) for s in skipped}), macro_failed_modules=sorted(macro_failed),
                       backend_rejections=notes[:20], ffix_methods_offered_to_js=ffix_js_info),
         "per_language": per_lang,
         "keyword_probe_invocations": {k: v for k, v in cnt.n.items() if k.startswith("evaluations_")},
         "tool_runs": cnt.n.get("tool_runs", 0),
         "cargo_builds": cnt.n.get("cargo_builds", 0),
+        "enumeration_id": sha(json.dumps([tier, sorted(modules.items()), value_names, type_names], sort_keys=True)),
         "closure_edges_checked": edges,
         "timing_s": timing,
         "samples": samples,
